@@ -56,7 +56,7 @@ fn seq_bounds(tier: &str) -> Vec<(usize, usize, usize)> {
     if tier == "quick" {
         vec![(2, 4, 2), (3, 3, 2), (3, 4, 2)]
     } else {
-        vec![(2, 5, 2), (3, 4, 2), (3, 5, 1), (4, 3, 1), (4, 4, 1)]
+        vec![(2, 5, 2), (2, 6, 1), (3, 4, 2), (3, 5, 2), (3, 6, 1), (4, 4, 2), (4, 5, 1), (5, 4, 1), (6, 3, 1)]
     }
 }
 
@@ -101,7 +101,7 @@ pub fn plan(prop: &str, tier: &str) -> Option<Plan> {
             let bounds: Vec<(usize, usize, i8, usize)> = match (prop, tier) {
                 ("C06", "quick") => vec![(2, 3, 3, 1), (3, 4, 2, 16), (4, 3, 2, 16)],
                 ("C06", _) => vec![(2, 4, 3, 1), (3, 4, 3, 16), (4, 3, 2, 16)],
-                (_, "quick") => vec![(2, 4, 0, 1), (3, 3, 0, 4)],
+                (_, "quick") => vec![(2, 4, 0, 1), (3, 3, 0, 4), (4, 3, 0, 8)],
                 ("C08", _) | ("C07", _) => vec![(2, 5, 0, 2), (3, 4, 0, 16), (4, 3, 0, 8)],
                 (_, _) => vec![(2, 5, 0, 2), (3, 5, 0, 16), (4, 4, 0, 16)],
             };
@@ -112,6 +112,10 @@ pub fn plan(prop: &str, tier: &str) -> Option<Plan> {
                     // the two largest quick bounds of C06 are taken one edge smaller there
                     let l = if prop == "C06" && tier == "quick" && f.contains("ungraph") && *n >= 3 { *l - 1 } else { *l };
                     jobs.extend(sharded(prop, "gsweep", f, tier, json!({"n": n, "max_l": l, "val_range": vr}), *sh));
+                }
+                // one more edge on 4 nodes for the directed flavours (2^5 filter subsets; undirected would be 4^5)
+                if tier != "quick" && matches!(prop, "C04" | "C05" | "C09" | "C10") && f.contains("digraph") {
+                    jobs.extend(sharded(prop, "gsweep", f, tier, json!({"n": 4, "max_l": 5, "val_range": 0}), 32));
                 }
                 if prop == "C06" {
                     jobs.push(job(prop, "gsweep", f, tier, json!({"cmp": true})));
@@ -293,7 +297,7 @@ pub fn plan(prop: &str, tier: &str) -> Option<Plan> {
             Some(Plan {
                 jobs,
                 level: "exploration".into(),
-                rule: "every canonical shape up to the bound x every root x every loop kind (edge iterators iter_out/iter, iter_in, `for e in &n`; bfs, dfs, pfs-min, pfs-max, preorder, postorder, transposed variants for the directed flavours, closure installed as for_each and as filter, with every target and without, cycle searches) x every script 'at callback step i perform o' for every step the unscripted loop reaches and every o in {connect, try_connect, disconnect, isolate over all operands, degree/is_connected/find queries, a nested complete edge loop, a nested bfs search, clone+drop of a handle}; thorough adds every second mutating operation at every later step. Oracle: no panic / self-deadlock (lock monitor) / crash; the loop ends within 4*(edges + edges added by the script)+8 callbacks; every yielded edge exists in the graph at the moment it is yielded with its true endpoints and value (checked by a fresh iteration from inside the callback); handles taken before the loop still work; the final state equals the state reached by the same operations outside any loop. nontrivial = scripts with a mutating operation".into(),
+                rule: "every canonical shape up to the bound x every root x every loop kind (edge iterators iter_out/iter, iter_in, `for e in &n`; bfs, dfs, pfs-min, pfs-max, preorder, postorder, transposed variants for the directed flavours, closure installed as for_each and as filter, with every target and without, cycle searches) x every script 'at callback step i perform o' for every step the unscripted loop reaches and every o in {connect, try_connect, disconnect, isolate over all operands, degree/is_connected/find queries, a nested complete edge loop, a nested bfs search, clone+drop of a handle}; thorough adds every second mutating operation at every later step; every operation that adds no edge is also executed at *every* callback step. Oracle: no panic / self-deadlock (lock monitor) / crash; the loop ends within 4*(edges + edges added by the script)+8 callbacks; every yielded edge exists in the graph at the moment it is yielded with its true endpoints and value (checked by a fresh iteration from inside the callback); handles taken before the loop still work; the final state equals the state reached by the same operations outside any loop. nontrivial = scripts with a mutating operation".into(),
                 bounds: json!({"(nodes, max_edges, two_op_scripts, shards)": table}),
                 exhaustive: true,
                 assumptions: vec!["a traversal that never calls back cannot be stopped by the closure; the worker watchdog reports it as a hang".into()],
